@@ -128,6 +128,13 @@ fn main() {
                 let mut docs = inp.all();
                 // extreme decimal numbers at every number position (the C06 boundary documents)
                 docs.extend(c06::cases(kind, tier).into_iter().map(|c| generic::Doc::new("boundary", c.doc)));
+                let contexts: Vec<&[u8]> = match kind {
+                    "cnf" => vec![b"", b"p cnf 2 2\n", b"p cnf 2 2\n1 ", b"p "],
+                    "wcnf" => vec![b"", b"p wcnf 2 2 3\n", b"p wcnf 2 2 3\n1 ", b"p wcnf "],
+                    "gcnf" => vec![b"", b"p gcnf 2 2 2\n", b"p gcnf 2 2 2\n{1} ", b"{"],
+                    _ => vec![b"", b"s ", b"v ", b"v 1 ", b"s SATISFIABLE\n"],
+                };
+                docs.extend(generic::long_token_docs(&contexts));
                 groups.push((kind.to_string(), subs, generic::dedup_docs(docs)));
             }
             generic::c05_isolated(&groups, tier.pick(40.0, 1500.0), &mut report);
@@ -136,15 +143,26 @@ fn main() {
         }
         "C08" => {
             for kind in subjects::KINDS {
-                let subs = subjects::subjects(kind, &lits_for(tier), &[false]);
+                // both settings of ignore_header / ignore_unknown_lines for the in-range clause; the
+                // exact-location catalogue needs the header to be enforced (flag false), except for the
+                // solver log, which has its own catalogue with skipped unknown lines for flag true
+                let subs = subjects::subjects(kind, &lits_for(tier), &[false, true]);
                 let inp = gen::inputs(kind, tier);
                 let docs = inp.all();
-                let cat = catalogue::corruptions(kind);
-                report.count(&format!("{kind}_corruptions"), cat.len() as u64);
                 let mut pairs: Vec<(usize, Corruption)> = Vec::new();
-                for c in cat {
-                    for si in 0..subs.len() {
-                        pairs.push((si, Corruption { doc: c.doc.clone(), line: c.line, col_first: c.col_first, col_last: c.col_last, what: c.what.clone() }));
+                for flag in [false, true] {
+                    if flag && kind != "log" {
+                        continue;
+                    }
+                    let cat = catalogue::corruptions_flag(kind, flag);
+                    report.count(&format!("{kind}_corruptions_flag_{flag}"), cat.len() as u64);
+                    for c in cat {
+                        for si in 0..subs.len() {
+                            if subs[si].name().ends_with("=true") != flag {
+                                continue;
+                            }
+                            pairs.push((si, Corruption { doc: c.doc.clone(), line: c.line, col_first: c.col_first, col_last: c.col_last, what: c.what.clone() }));
+                        }
                     }
                 }
                 generic::c08(&subs, &docs, &pairs, tier, &budget, &mut report);
@@ -206,6 +224,10 @@ fn c10_cases() -> Vec<(Box<dyn Subject>, generic::StreamCase)> {
         (subjects::make("cnf", "i32", false), case("cnf-comment-run", b"p cnf 1 1\n", b"c a comment line\n", b"1 0\n", 20)),
         (subjects::make("wcnf", "i32", true), case("wcnf-blank-and-comment-run", b"", b"c x\n\n \t\n", b"3 1 0\n", 12)),
         (subjects::make("cnf", "i32", false), case("cnf-split-clause-comments", b"1\n", b"c inside a clause\n\n", b"0\n", 20)),
+        // large DECLARED counts with small items: memory must not follow the header's numbers
+        (subjects::make("cnf", "i32", false), case("cnf-large-declared-variable-count", b"p cnf 20000000 0\n", b"1 -2 3 0\n-20000000 0\n", b"", 16)),
+        (subjects::make("wcnf", "i64", false), case("wcnf-large-declared-counts", b"p wcnf 20000000 0 18446744073709551615\n", b"5 1 -2 0\n7 -20000000 0\n", b"", 16)),
+        (subjects::make("gcnf", "i32", false), case("gcnf-large-declared-counts", b"p gcnf 20000000 0 20000000\n", b"{1} 1 -2 0\n{20000000} -9 0\n", b"", 20)),
     ]
 }
 
